@@ -111,8 +111,8 @@ class BasicContiguousVector<cntgs::Options<Option...>, Parameter...>
     {
     }
 
-    template <bool IsNoneSpecial = IS_ALL_PLAIN>
-    constexpr explicit BasicContiguousVector(size_type max_element_count, std::enable_if_t<IsNoneSpecial>* = nullptr)
+    template <bool IsNoneSpecial = IS_ALL_PLAIN, std::enable_if_t<IsNoneSpecial, int> = 0>
+    constexpr explicit BasicContiguousVector(size_type max_element_count)
         : BasicContiguousVector(max_element_count, size_type{}, FixedSizes{}, allocator_type{}, 0)
     {
     }
